@@ -171,7 +171,85 @@ def observe_merge(case):
     after = [digest(sd1), digest(sd2)]
     res_sd = res if form == "sd_update" else res.split_distribution
     fresh = w.array(case["trees1"] + case["trees2"] + case["extra"])
-    return {"before": before, "after": after, "result": digest(res_sd), "fresh": digest(fresh.split_distribution)}
+    return {"before": before, "after": after, "result": digest(res_sd), "fresh": digest(fresh.split_distribution),
+            "recs": {k: [encoded_records(w, s, case["ages"]) for s in case[k]] for k in ("trees1", "trees2", "extra")}}
+
+
+def encoded_records(w, spec, ages):
+    """the bipartition records of a tree AS ENCODED by the library (input of the Coq model)"""
+    t = w.tree(spec)
+    if ages:
+        t.calc_node_ages(ultrametricity_precision=0.0000001)
+    t.encode_bipartitions()
+    edge_of = {id(e.bipartition): e for e in t.postorder_edge_iter()}
+    recs = []
+    for b in t.bipartition_encoding:
+        e = edge_of[id(b)]
+        recs.append([int(b.split_bitmask), None if e.length is None else float(e.length).hex(),
+                     float(e.head_node.age).hex() if ages and e.head_node.age is not None else None])
+    return {"recs": recs, "leafset": int(t.seed_node.edge.bipartition.leafset_bitmask)}
+
+
+# ---- Coq terms for the object-level merge model (coq/Model/C05Merge.v, mcase_ok)
+MERGE_HEADER = ("From DV Require Import Model.PyPrims Model.C05Model Model.C05Merge.\n"
+                "From Coq Require Import ZArith QArith. Open Scope Z_scope.")
+
+
+def _cq(h):
+    from dv.core import cq
+    return cq(Fraction(float.fromhex(h)))
+
+
+def _oq(h):
+    return "None" if h is None else "(Some %s)" % _cq(h)
+
+
+def merge_representable(obs):
+    def bad(x):
+        if isinstance(x, str):
+            return x == "complex" or x in ("inf", "-inf", "nan")
+        if isinstance(x, list):
+            return any(bad(y) for y in x)
+        return False
+    for d in obs["before"] + obs["after"] + [obs["result"], obs["fresh"]]:
+        for name in ("len", "age"):
+            for row in d[name]:
+                if row[1] is None or row[2] is None or row[3] is None or bad(row[:4]):
+                    return False
+                if row[4] is not None and row[4] != "inf" and (bad(row[4]) or float.fromhex(row[4]) != float.fromhex(row[4])):
+                    return False
+    return True
+
+
+def _c_digest(d):
+    from dv.core import cz, clist
+    freq = clist(["(%s, %s)" % (cz(s), _cq(f)) for s, f in d["freq"]])
+
+    def rows(rs):
+        out = []
+        for s, mean, med, rng_, var in rs:
+            v = "None" if (var is None or float.fromhex(var) == float("inf")) else "(Some %s)" % _cq(var)
+            out.append("(%s, mkSum %s %s %s %s %s)" % (cz(s), _cq(mean), v, _cq(med), _cq(rng_[0]), _cq(rng_[1])))
+        return clist(out)
+    return "(mkDg %s %s %s)" % (freq, rows(d["len"]), rows(d["age"]))
+
+
+def merge_to_coq(case, obs):
+    from dv.core import cz, cbool, clist
+
+    def trees(k):
+        out = []
+        for o in obs["recs"][k]:
+            recs = clist(["(mkRec %s %s %s)" % (cz(s), _oq(l), _oq(a)) for s, l, a in o["recs"]])
+            out.append("(mkTree %s None %s %s)" % (recs, "None" if case["rooting"] is None else "(Some %s)" % cbool(case["rooting"]),
+                                                  cz(o["leafset"])))
+        return clist(out)
+    # the collections of the harness are TreeArrays: their distribution counts with default_edge_length_value 0
+    cfg = "(mkCfg %s %s true (Some 0%%Q))" % (cbool(case.get("ignore_len", False)), cbool(not case["ages"]))
+    return "(mkMcase %s %s %s %s (%s, %s) (%s, %s) %s %s)" % (
+        cfg, trees("trees1"), trees("trees2"), trees("extra"),
+        _c_digest(obs["before"][0]), _c_digest(obs["before"][1]), _c_digest(obs["after"][0]), _c_digest(obs["after"][1]),
+        _c_digest(obs["result"]), _c_digest(obs["fresh"]))
 
 
 def _close_hex(a, b, rel):
